@@ -1,71 +1,514 @@
+// c06: oracle and correspondence for C06 (same cluster state, same behaviour, whatever the
+// processing order).
+//
+// Oracle (no model): a generated cluster -- world.Full() plus conflict-prone annotations
+// (lib/c06) -- is fed to k >= 6 independent fresh real pipelines in one process.  Run 0 gets
+// the objects in generation order; every other run gets them in its own random event order,
+// and every second run reads the cluster through a client whose List answers are shuffled
+// (the fake client's tracker sorts them).  Go re-randomises every map iteration in each
+// run.  The behaviours (lib/sem over a request universe, internal numbering erased) must
+// all be equal.  Batch cases: the same base cluster, then ONE more batch of changes
+// delivered in different event orders (events of one object keep their order), then the
+// behaviours must be equal again (partial sync).  A difference is shrunk and classified.
+//
+// Correspondence: see corr.go.
 package main
 
 import (
+	"encoding/json"
 	"fmt"
 	"math/rand"
 	"os"
+	"path/filepath"
+	"reflect"
+	"sort"
 	"strings"
+	"sync"
 
+	api "k8s.io/api/core/v1"
+	networking "k8s.io/api/networking/v1"
 	"sigs.k8s.io/controller-runtime/pkg/client"
 
 	"verif/harness/lib/c06"
+	"verif/harness/lib/hx"
+	"verif/harness/lib/pipeline"
 	"verif/harness/lib/world"
 )
 
-var universe = c06.Universe()
+var (
+	workdir  string
+	universe = c06.Universe()
+)
 
-func runs(objs []client.Object, k int, tag string) (bool, []string) {
-	var first string
+// input is one oracle case (also the replay format).
+type input struct {
+	Objs  []world.ObjJSON    `json:"objs"`            // the cluster, metadata included
+	Batch []world.ChangeJSON `json:"batch,omitempty"` // one more batch, delivered in permuted event orders
+	Opts  c06.Opts           `json:"opts"`
+	Runs  int                `json:"runs,omitempty"` // number of independent pipelines (default 6)
+	Note  string             `json:"note,omitempty"`
+}
+
+type ocase struct {
+	objs  []client.Object
+	batch []pipeline.Change
+	opts  c06.Opts
+	runs  int
+	note  string
+}
+
+func (c ocase) encode() input {
+	in := input{Objs: world.EncodeObjs(c.objs), Opts: c.opts, Runs: c.runs, Note: c.note}
+	if len(c.batch) > 0 {
+		in.Batch = world.EncodeHistory([][]pipeline.Change{c.batch})[0]
+	}
+	return in
+}
+
+func decode(in input) ocase {
+	c := ocase{objs: world.DecodeObjs(in.Objs), opts: in.Opts, runs: in.Runs, note: in.Note}
+	if len(in.Batch) > 0 {
+		c.batch = world.DecodeHistory([][]world.ChangeJSON{in.Batch})[0]
+	}
+	return c
+}
+
+// stampBatch gives the objects of a batch the metadata the API server would: the creation
+// stamp and uid of the object they replace, a new resourceVersion, and a generation bumped
+// when the spec differs.
+func stampBatch(base []client.Object, batch []pipeline.Change) []pipeline.Change {
+	cur := map[string]client.Object{}
+	for _, o := range base {
+		cur[world.Key(o)] = o
+	}
+	spec := func(o client.Object) interface{} {
+		v := reflect.ValueOf(o)
+		if v.Kind() == reflect.Ptr && v.Elem().Kind() == reflect.Struct {
+			if f := v.Elem().FieldByName("Spec"); f.IsValid() {
+				return f.Interface()
+			}
+		}
+		return nil
+	}
+	out := make([]pipeline.Change, len(batch))
+	for i, ch := range batch {
+		o := ch.Obj.DeepCopyObject().(client.Object)
+		k := world.Key(o)
+		if ch.Op == pipeline.Delete {
+			delete(cur, k)
+			out[i] = pipeline.Change{Op: ch.Op, Obj: o}
+			continue
+		}
+		o.SetResourceVersion(fmt.Sprint(200000 + i))
+		if old, ok := cur[k]; ok {
+			o.SetCreationTimestamp(old.GetCreationTimestamp())
+			o.SetUID(old.GetUID())
+			gen := old.GetGeneration()
+			if !reflect.DeepEqual(spec(old), spec(o)) {
+				gen++
+			}
+			o.SetGeneration(gen)
+		} else {
+			o = c06.Stamp([]client.Object{o})[0]
+			o.SetResourceVersion(fmt.Sprint(200000 + i))
+		}
+		cur[k] = o
+		out[i] = pipeline.Change{Op: ch.Op, Obj: o}
+	}
+	return out
+}
+
+// runAll executes the k runs of a case (concurrently) and returns the canonical behaviours.
+func runAll(c ocase, tag string) ([]string, int, error) {
+	k := c.runs
+	if k < 6 {
+		k = 6
+	}
+	canon := make([]string, k)
+	errs := make([]error, k)
+	lists := make([]int, k)
+	var wg sync.WaitGroup
+	sem := make(chan struct{}, 8)
 	for i := 0; i < k; i++ {
-		dir := fmt.Sprintf("/verif/.work/c06x/%s%d", tag, i)
-		os.RemoveAll(dir)
-		r := c06.Run{Dir: dir, Opts: c06.Opts{WatchWithoutClass: true, DefaultService: "ns1/svc1"}, Objs: objs}
-		if i > 0 {
-			r.Order = rand.New(rand.NewSource(int64(i))).Perm(len(objs))
-			r.ShuffleLists = i%2 == 1
-			r.Seed = int64(i)
+		wg.Add(1)
+		go func(i int) {
+			defer wg.Done()
+			sem <- struct{}{}
+			defer func() { <-sem }()
+			dir := filepath.Join(workdir, fmt.Sprintf("%s%d", tag, i))
+			os.RemoveAll(dir)
+			r := c06.Run{Dir: dir, Opts: c.opts, Objs: c.objs, Batch: c.batch}
+			if i > 0 {
+				rng := rand.New(rand.NewSource(int64(i)*7919 + int64(len(c.objs))))
+				if len(c.batch) == 0 || i%3 == 0 {
+					r.Order = rng.Perm(len(c.objs))
+				}
+				if len(c.batch) > 0 {
+					r.BatchOrder = c06.PermKeepingKeys(rng, c.batch)
+				}
+				r.ShuffleLists = i%2 == 1
+				r.Seed = int64(i)
+			}
+			res, err := c06.Exec(r, universe, false)
+			if err != nil {
+				errs[i] = err
+				return
+			}
+			canon[i] = res.Canon
+			lists[i] = res.Lists
+		}(i)
+	}
+	wg.Wait()
+	nl := 0
+	for i := range errs {
+		if errs[i] != nil {
+			return nil, 0, fmt.Errorf("run %d: %v", i, errs[i])
 		}
-		res, err := c06.Exec(r, universe, false)
-		if err != nil {
-			return true, []string{"error " + err.Error()}
-		}
-		if i == 0 {
-			first = res.Canon
-		} else if res.Canon != first {
-			return true, c06.DiffCanon(first, res.Canon, 6)
+		nl += lists[i]
+	}
+	return canon, nl, nil
+}
+
+// diverges tells whether some run behaves differently from run 0.
+func diverges(c ocase, tag string) (bool, []string, int, error) {
+	canon, nl, err := runAll(c, tag)
+	if err != nil {
+		return false, nil, 0, err
+	}
+	for i := 1; i < len(canon); i++ {
+		if canon[i] != canon[0] {
+			return true, append([]string{fmt.Sprintf("run %d differs from run 0", i)}, c06.DiffCanon(canon[0], canon[i], 5)...), nl, nil
 		}
 	}
-	return false, nil
+	return false, nil, nl, nil
+}
+
+// fails is the shrinker's predicate: map iteration is random, so several attempts.
+func fails(c ocase, attempts int) bool {
+	for t := 0; t < attempts; t++ {
+		if d, _, _, err := diverges(c, "s"); err == nil && d {
+			return true
+		}
+	}
+	return false
+}
+
+func shrink(c ocase) ocase {
+	if len(c.batch) > 0 {
+		h := [][]pipeline.Change{nil, c.batch}
+		for _, o := range c.objs {
+			h[0] = append(h[0], pipeline.Change{Op: pipeline.Create, Obj: o})
+		}
+		m := world.Shrink(h, func(x [][]pipeline.Change) bool {
+			if len(x) != 2 {
+				return false // the base or the batch vanished: another kind of case
+			}
+			d := ocase{opts: c.opts, runs: c.runs, batch: x[1]}
+			for _, ch := range x[0] {
+				if ch.Op != pipeline.Create {
+					return false
+				}
+				d.objs = append(d.objs, ch.Obj)
+			}
+			for _, ch := range x[1] {
+				_ = ch
+			}
+			return fails(d, 3)
+		}, 120)
+		if len(m) == 2 {
+			d := ocase{opts: c.opts, runs: c.runs, batch: m[1], note: c.note}
+			for _, ch := range m[0] {
+				d.objs = append(d.objs, ch.Obj)
+			}
+			return d
+		}
+		return c
+	}
+	objs := world.ShrinkObjs(c.objs, func(x []client.Object) bool {
+		return fails(ocase{objs: x, opts: c.opts, runs: c.runs}, 3)
+	}, 150)
+	return ocase{objs: objs, opts: c.opts, runs: c.runs, note: c.note}
+}
+
+// ---------------------------------------------------------------- classification
+
+func annValue(o client.Object, key string) (string, bool) {
+	for _, p := range c06.Prefixes {
+		if v, ok := o.GetAnnotations()[p+key]; ok {
+			return v, true
+		}
+	}
+	return "", false
+}
+
+func hostsOf(ing *networking.Ingress) []string {
+	seen := map[string]bool{}
+	var out []string
+	add := func(h string) {
+		if h == "" {
+			h = "<default>"
+		}
+		if !seen[h] {
+			seen[h] = true
+			out = append(out, h)
+		}
+	}
+	for _, r := range ing.Spec.Rules {
+		if r.HTTP != nil {
+			add(r.Host)
+		}
+	}
+	for _, t := range ing.Spec.TLS {
+		for _, h := range t.Hosts {
+			add(h)
+		}
+	}
+	return out
+}
+
+// classify names the cause of a diverging case; unknown causes are keyed by what the case
+// contains so that they are never mistaken for a known finding.
+func classify(c ocase, diff []string) string {
+	text := strings.Join(diff, "\n")
+	var all []client.Object
+	all = append(all, c.objs...)
+	for _, ch := range c.batch {
+		if ch.Op != pipeline.Delete {
+			all = append(all, ch.Obj)
+		}
+	}
+	// the same redirect-from / redirect-from-regex value claimed by two hosts
+	for _, key := range []string{"redirect-from", "redirect-from-regex"} {
+		claims := map[string]map[string]bool{}
+		for _, o := range all {
+			if ing, ok := o.(*networking.Ingress); ok {
+				if v, ok := annValue(ing, key); ok && v != "" {
+					if claims[v] == nil {
+						claims[v] = map[string]bool{}
+					}
+					for _, h := range hostsOf(ing) {
+						claims[v][h] = true
+					}
+				}
+			}
+		}
+		for _, hs := range claims {
+			if len(hs) > 1 && (strings.Contains(text, "redirdest") || strings.Contains(text, "redirect prefix") || strings.Contains(text, "redir")) {
+				return "C06/redirect-from-duplicate"
+			}
+		}
+	}
+	// oauth: the backend of the /oauth2 path is looked for in every host of the namespace
+	oauth := false
+	for _, o := range all {
+		if _, ok := annValue(o, "oauth"); ok {
+			oauth = true
+		}
+	}
+	if oauth && (strings.Contains(text, "/oauth2") || strings.Contains(text, "auth-intercept")) {
+		return "C06/oauth-backend-lookup"
+	}
+	// auth proxy: more external authentication services than ports
+	for _, o := range all {
+		if cm, ok := o.(*api.ConfigMap); ok {
+			if _, ok := cm.Data["auth-proxy"]; ok && (strings.Contains(text, "_auth") || strings.Contains(text, "auth-request") || strings.Contains(text, "auth-intercept")) {
+				return "C06/auth-proxy-range-exhausted"
+			}
+		}
+	}
+	keys := map[string]bool{}
+	for _, o := range all {
+		for k := range o.GetAnnotations() {
+			for _, p := range c06.Prefixes {
+				k = strings.TrimPrefix(k, p)
+			}
+			keys[k] = true
+		}
+	}
+	kind := "other"
+	if strings.Contains(text, "\"req\"") || strings.Contains(text, "\"verdict\"") {
+		kind = "route"
+	} else if strings.Contains(text, "http-request") {
+		kind = "rules"
+	}
+	shape := "cluster"
+	if len(c.batch) > 0 {
+		var parts []string
+		for _, ch := range c.batch {
+			parts = append(parts, ch.Op.String()+" "+world.KindOf(ch.Obj))
+		}
+		shape = "batch:" + strings.Join(parts, ",")
+	}
+	return "C06/unclassified[" + kind + "]:" + shape + ":" + strings.Join(hx.SortedKeys(keys), ",")
+}
+
+func describe(c ocase) string {
+	var parts []string
+	for _, o := range c.objs {
+		s := world.Key(o)
+		if a := o.GetAnnotations(); len(a) > 0 {
+			var as []string
+			for _, k := range hx.SortedKeys(a) {
+				as = append(as, k+"="+a[k])
+			}
+			s += "{" + strings.Join(as, ", ") + "}"
+		}
+		if ing, ok := o.(*networking.Ingress); ok {
+			s += fmt.Sprintf(" stamp=%d hosts=%v", ing.CreationTimestamp.Unix(), hostsOf(ing))
+		}
+		parts = append(parts, s)
+	}
+	out := strings.Join(parts, "; ")
+	if len(c.batch) > 0 {
+		var bs []string
+		for _, ch := range c.batch {
+			bs = append(bs, ch.Op.String()+" "+world.Key(ch.Obj))
+		}
+		out += " || then one batch (any event order): " + strings.Join(bs, "; ")
+	}
+	return out
+}
+
+// ---------------------------------------------------------------- generation
+
+func genCase(rng *rand.Rand, i int, withBatch bool) ocase {
+	cfg := world.Full()
+	level := i % 3 // 0: world only, 1 / 2: spiced
+	c := ocase{opts: c06.Opts{WatchWithoutClass: true, DefaultService: "ns1/svc1"}, runs: 6}
+	if i%5 == 4 {
+		c.opts.BackendShards = 3
+	}
+	if i%7 == 6 {
+		c.opts.WatchWithoutClass = false
+	}
+	c.objs = c06.Stamp(c06.GenCluster(rng, cfg, level))
+	if withBatch {
+		if level > 0 {
+			cfg.HostPool, cfg.PathPool = c06.Hosts, c06.Paths
+		}
+		st := world.NewState(c.objs)
+		c.batch = stampBatch(c.objs, world.GenBatch(rng, cfg, st, 4))
+	}
+	return c
 }
 
 func main() {
-	n := 200
-	for seed := int64(1); seed <= int64(n); seed++ {
-		rng := rand.New(rand.NewSource(seed))
-		level := int(seed % 3)
-		objs := c06.Stamp(c06.GenCluster(rng, world.Full(), level))
-		bad, diff := runs(objs, 6, "r")
-		if bad {
-			fmt.Println("SEED", seed, "level", level, "objs", len(objs))
-			for _, d := range diff {
-				if len(d) > 300 {
-					d = d[:300]
-				}
-				fmt.Println("   ", d)
-			}
-			m := world.ShrinkObjs(objs, func(x []client.Object) bool {
-				for t := 0; t < 3; t++ {
-					if b, _ := runs(x, 6, "s"); b {
-						return true
-					}
-				}
-				return false
-			}, 150)
-			var ks []string
-			for _, o := range m {
-				ks = append(ks, world.Key(o)+fmt.Sprint(o.GetAnnotations()))
-			}
-			fmt.Println("   shrunk:", strings.Join(ks, " ; "))
+	o := hx.Parse()
+	workdir = filepath.Join(o.Out, "scratch")
+	os.MkdirAll(workdir, 0o755)
+	defer os.RemoveAll(workdir)
+	rng := o.Rng()
+	res := hx.NewResult("C06", "oracle: generated clusters (world.Full(): <=7 ingresses sharing 5+3 hosts, 11 paths, 4 services x 3 namespaces, tls, classes, ConfigMap, pods, equal creation stamps; two thirds with conflict-prone annotations: both annotation prefixes, host wide keys on several ingresses / hosts, redirect-from, alias, external auth, oauth, basic auth, tcp) fed to 6 independent fresh real pipelines in permuted event orders, half of them with shuffled List answers; batch cases add one batch of 1..4 changes delivered in permuted event orders (partial sync); behaviours (lib/sem) must be equal. correspondence: real sortIngress / readConfigKeys / Mapper / converter+updater (host redirects) vs coq/Model/Order.v. non-trivial = >= 2 ingresses sharing a host or a backend; distinct by cluster text")
+	cw := hx.NewCaseWriter(o, res, "From HI Require Import Corr.Corr_C06.", "ccase", 250)
+
+	var cases []ocase
+	var isCorpus []bool
+	if o.Replay != "" {
+		var in input
+		hx.ReadReplay(o.Replay, &in)
+		cases = append(cases, decode(in))
+		isCorpus = append(isCorpus, true)
+	} else {
+		files, _ := filepath.Glob("/verif/corpus/C06/*.json")
+		sort.Strings(files)
+		for _, f := range files {
+			var in input
+			hx.ReadReplay(f, &in)
+			cases = append(cases, decode(in))
+			isCorpus = append(isCorpus, true)
+		}
+		nCluster := o.Count(36, 1500)
+		nBatch := o.Count(18, 800)
+		if o.Search {
+			nCluster, nBatch = o.Count(400, 4000), o.Count(150, 1500)
+		}
+		for i := 0; i < nCluster; i++ {
+			cases = append(cases, genCase(rng, i, false))
+			isCorpus = append(isCorpus, false)
+		}
+		for i := 0; i < nBatch; i++ {
+			cases = append(cases, genCase(rng, i, true))
+			isCorpus = append(isCorpus, false)
 		}
 	}
+
+	seenKeys := map[string]bool{}
+	for ci, c := range cases {
+		canon, _ := json.Marshal(c.encode())
+		nIng, shared := 0, false
+		hostUse := map[string]int{}
+		for _, ob := range c.objs {
+			if ing, ok := ob.(*networking.Ingress); ok {
+				nIng++
+				for _, h := range hostsOf(ing) {
+					hostUse[h]++
+					if hostUse[h] > 1 {
+						shared = true
+					}
+				}
+			}
+		}
+		res.Seen(string(canon), nIng >= 2 && shared)
+		res.Count(fmt.Sprintf("oracle_ingresses=%d", nIng))
+		if len(c.batch) > 0 {
+			res.Count("oracle_batch_case")
+			for _, ch := range c.batch {
+				res.Count("oracle_batch_" + ch.Op.String() + "_" + world.KindOf(ch.Obj))
+			}
+		} else {
+			res.Count("oracle_cluster_case")
+		}
+		for _, ob := range c.objs {
+			for k := range ob.GetAnnotations() {
+				for _, p := range c06.Prefixes {
+					if strings.HasPrefix(k, p) {
+						res.Count("oracle_ann_" + strings.TrimPrefix(k, p))
+					}
+				}
+			}
+		}
+		if ci < 2 || (len(c.batch) > 0 && len(res.Samples) < 3) {
+			res.Sample(4, map[string]interface{}{"oracle_case": describe(c), "runs": max(6, c.runs)})
+		}
+		res.OracleChecks++
+		d, diff, nl, err := diverges(c, "r")
+		if err != nil {
+			res.Count("oracle_harness_error")
+			res.Fail(hx.Failure{Key: "C06/update-error", What: "a pipeline failed: " + err.Error(), Input: c.encode()})
+			continue
+		}
+		res.Distribution["oracle_shuffled_list_calls"] += nl
+		if !d {
+			continue
+		}
+		res.Count("oracle_fail")
+		pre := classify(c, diff)
+		if seenKeys[pre] && !isCorpus[ci] && !strings.Contains(pre, "unclassified") {
+			res.Count("oracle_fail_same_key_not_shrunk")
+			continue
+		}
+		m := c
+		if !isCorpus[ci] {
+			m = shrink(c)
+		}
+		md := diff
+		for t := 0; t < 4; t++ {
+			if dd, df, _, err := diverges(m, "r"); err == nil && dd {
+				md = df
+				break
+			}
+		}
+		key := classify(m, md)
+		if !seenKeys[key] || isCorpus[ci] {
+			seenKeys[key] = true
+			res.Fail(hx.Failure{Key: key, What: "independent fresh controllers fed the same cluster in different orders behave differently: " + describe(m),
+				Input: m.encode(), Observed: md})
+		}
+	}
+
+	if !o.Search && o.Replay == "" {
+		correspondence(o, rng, res, cw)
+	}
+	cw.Flush()
+	res.Write(o)
 }
